@@ -2,7 +2,8 @@
 //! T-Matcher (contracts/common/prelude_matcher.rs), on which the Verus proof of the line searcher rests,
 //! is validated for the real grep-regex `RegexMatcher` (path dependency on /repo, configured exactly as
 //! crates/core/flags/hiargs.rs::matcher_rust configures it for line-oriented search), for every pattern of
-//! a small token grammar, every option of {plain, -i, -w, -x} and every haystack over {a, b, space, \n}
+//! a small token grammar and a small regex AST, every option of {plain, -i, -w, -x, -S} and every haystack
+//! over {a, b, A, space, \n}
 //! up to a length bound.
 //!
 //! Ghost semantics of the contract, made executable: m_find_at(h, at) = the leftmost match of the
@@ -19,7 +20,7 @@ use grep_matcher::{LineMatchKind, Matcher};
 use grep_regex::RegexMatcherBuilder;
 
 const TOKENS: &[&str] = &["a", "b", ".", "[ab]", "(a|b)", "^", "$", r"\A", r"\z", r"\b", "?", "*", "+", "{0,2}", "|", " ", r"\s"];
-const ALPHA: &[u8] = b"ab \n";
+const ALPHA: &[u8] = b"abA \n";
 
 fn words(max: usize) -> Vec<String> {
     let mut out = vec![];
@@ -40,7 +41,7 @@ fn words(max: usize) -> Vec<String> {
 /// every pattern with at most `max` nodes of a small regex AST: atoms, postfix repetition, concatenation,
 /// alternation, capturing and non-capturing groups (so that e.g. `a(\s+)b` and `(?:a|\A)b` are reached)
 fn ast_patterns(max: usize) -> Vec<String> {
-    const ATOMS: &[&str] = &["a", "b", " ", ".", r"\s", "[ab]", "[^a]", "^", "$", r"\A", r"\z", r"\b"];
+    const ATOMS: &[&str] = &["a", "b", "A", " ", ".", r"\s", "[ab]", "[^a]", "[A-b]", "[0-B]", "^", "$", r"\A", r"\z", r"\b"];
     // (text, is_atomic): atomic = can take a postfix operator / be concatenated without parentheses
     let mut by_size: Vec<Vec<(String, bool)>> = vec![vec![], ATOMS.iter().map(|a| (a.to_string(), true)).collect()];
     for n in 2..=max {
@@ -102,6 +103,9 @@ fn real(pattern: &str, opt: u32) -> Option<grep_regex::RegexMatcher> {
     let mut b = RegexMatcherBuilder::new();
     b.multi_line(true).unicode(true).octal(false);
     b.case_insensitive(opt == 1);
+    if opt == 4 {
+        b.case_smart(true);
+    }
     if opt == 2 {
         b.word(true);
     }
@@ -119,7 +123,21 @@ fn oracle(pattern: &str, opt: u32) -> Option<regex::bytes::Regex> {
         3 => format!(r"^(?:{})$", pattern),
         _ => pattern.to_string(),
     };
-    regex::bytes::RegexBuilder::new(&p).multi_line(true).unicode(true).case_insensitive(opt == 1).build().ok()
+    // -S (documented): case-insensitive iff no literal of the pattern is uppercase; literals are the pattern's
+    // characters outside escape sequences (class members and range ends included)
+    let smart_insensitive = opt == 4 && !has_uppercase_literal(pattern);
+    regex::bytes::RegexBuilder::new(&p).multi_line(true).unicode(true).case_insensitive(opt == 1 || smart_insensitive).build().ok()
+}
+
+fn has_uppercase_literal(pattern: &str) -> bool {
+    let b = pattern.as_bytes();
+    let mut i = 0;
+    while i < b.len() {
+        if b[i] == b'\\' { i += 2; continue; }
+        if b[i].is_ascii_uppercase() { return true; }
+        i += 1;
+    }
+    false
 }
 
 fn line_start_of(h: &[u8], i: usize) -> usize {
@@ -236,7 +254,7 @@ fn unhex(h: &str) -> Vec<u8> {
     (0..h.len() / 2).map(|i| u8::from_str_radix(&h[2 * i..2 * i + 2], 16).unwrap()).collect()
 }
 fn report(pattern: &str, opt: u32, h: &[u8], what: &str) {
-    println!("FAILING CASE matcher-contract pattern={:?} option={} haystack={:?}: {}", pattern, ["plain", "-i", "-w", "-x"][opt as usize], String::from_utf8_lossy(h), what);
+    println!("FAILING CASE matcher-contract pattern={:?} option={} haystack={:?}: {}", pattern, ["plain", "-i", "-w", "-x", "-S"][opt as usize], String::from_utf8_lossy(h), what);
     println!("VERIF_REPLAY_PATTERN={} VERIF_REPLAY_OPT={} VERIF_REPLAY_INPUT={}", hex(pattern.as_bytes()), opt, hex(h));
 }
 
@@ -259,7 +277,7 @@ fn main() {
     pats.sort();
     pats.dedup();
     let ins = inputs(len);
-    eprintln!("matcher contract: {} pattern strings x 4 options x {} haystacks", pats.len(), ins.len());
+    eprintln!("matcher contract: {} pattern strings x 5 options x {} haystacks", pats.len(), ins.len());
     let next = std::sync::atomic::AtomicUsize::new(0);
     let best: std::sync::Mutex<Option<(usize, u32, usize, String)>> = std::sync::Mutex::new(None);
     let survey = std::env::var("VERIF_MATCHER_ALL").is_ok();
@@ -270,7 +288,7 @@ fn main() {
                 let k = next.fetch_add(1, std::sync::atomic::Ordering::SeqCst);
                 if k >= pats.len() { break; }
                 if !survey { if let Some(ref b) = *best.lock().unwrap() { if b.0 < k { break; } } }
-                'opts: for opt in 0..4u32 {
+                'opts: for opt in 0..5u32 {
                     let (m, re) = match (real(&pats[k], opt), oracle(&pats[k], opt)) {
                         (Some(m), Some(re)) => (m, re),
                         _ => continue,
